@@ -18,6 +18,16 @@ import (
 
 func configsB(quick bool) []cfgB {
 	out := []cfgB{
+		// two sync cycles on one Downloader: the first is cancelled once the importer
+		// holds cutAt blocks (requests in flight, results possibly ready), the second
+		// starts below / at / above the point the result window had reached, on the
+		// same chain or on one forking off after block `shared`
+		{name: "cyc2-below", pattern: "TTTTTTTT", window: 6, maxFetch: 4, eager: true, cyc2: "same", cutAt: 4, rel: -2},
+		{name: "cyc2-fork", pattern: "TTETTTTT", window: 6, maxFetch: 4, eager: true, cyc2: "fork", cutAt: 4, shared: 2},
+		{name: "cyc2-at", pattern: "TTTTTTTT", window: 6, maxFetch: 4, cyc2: "same", cutAt: 2, rel: 0},
+		{name: "cyc2-above", pattern: "TTTTTTTT", window: 6, maxFetch: 4, eager: true, cyc2: "same", cutAt: 2, rel: 1},
+		{name: "cyc2-after-completion", pattern: "TTTTTT", window: 6, maxFetch: 4, cyc2: "same", cutAt: 7, rel: -3},
+		{name: "cyc2-below-p2-honest", pattern: "TTTTTTTT", window: 6, maxFetch: 3, p2: "honest", master: true, eager: true, cyc2: "same", cutAt: 3, rel: -2},
 		// the designated peer alone: nobody else can take over
 		{name: "solo", pattern: "TTTTTTTTTT", window: 6, maxFetch: 4},
 		{name: "solo-eager", pattern: "TTETTTTETT", window: 6, maxFetch: 4, eager: true, split: true},
@@ -45,6 +55,12 @@ func depthB(c cfgB, quick bool) int {
 	}
 	if c.ticker {
 		k--
+	}
+	if c.cyc2 != "" { // the decision points of both cycles count
+		k = 2
+		if !quick {
+			k = 3
+		}
 	}
 	if v := os.Getenv("C18B_K"); v != "" {
 		fmt.Sscan(v, &k)
@@ -242,8 +258,10 @@ func setupB(c cfgB) func() {
 func runFetch(r *mc.Run) {
 	r.Assume("part 2 (fetch loop): virtual time - an answer takes no time, the oldest outstanding request expires only when nothing else can happen; other orders of answers and expiries are covered by part 1 on the queue alone")
 	r.Assume("part 2: a wake signal (processHeaders' `true`) is used as a tick in addition to fetchParts' own 100 ms ticker; both only trigger a round of the loop")
+	r.Assume("part 2, two cycles: the point where the first cycle is cut is fixed per configuration (first loop round at which the importer holds cutAt blocks), not explored; every cut point x every interleaving is part 1's job (systems queue2-...)")
 	r.Assume("part 2: peer throughput is measured by wall-clock; MaxBlockFetch is set to 3..4 so the request size is 2 after a failure and MaxBlockFetch after a success whatever the measurement")
-	r.Rule += " || PART 2 (real fetch loop): every schedule with at most k deviations (k per configuration in fetch_loop_configurations) of a run of the real Downloader.fetchBodies/fetchParts goroutine against scripted peers; a schedule = the choices at the run's decision points in order of occurrence: per request received by the designated peer P1 one of {full, part (prefix), empty, wrong0 (first body wrong), wrongLast, dup (previous answer packet again, then the answer), unsol (batch nobody asked for, then the answer), timeout (never answered; expires), late (answered after the expiry was processed), disconnect (reconnects after the orphaned request expired)}, per import opportunity one of {take, stall}; configurations vary chain pattern, result window, MaxBlockFetch, master peer, eager/lazy importer, split header scheduling and a second peer with a fixed personality (honest | dead: never answers | liar: first body always wrong | empty: always empty answers | gone: disconnects on its first request); distinct = distinct (configuration, schedule, outcome); oracles: importer sequence origin.. exactly once with matching body; fetchBodies must return, nil only with every block delivered, an error only with a cause (master lost, no peer left, every peer lacking); a run that has not returned while nothing is in flight, nothing is left for the environment to do and 30 wake-ups change nothing is a dead state; peers are dropped only for a timed-out request of at most 2 items; every violation signature is confirmed by 3 replays of its shortest schedule with the dead state observed over 30 periods of the loop's own 100 ms ticker"
+	r.Rule += " || PART 2 (real fetch loop): every schedule with at most k deviations (k per configuration in fetch_loop_configurations) of a run of the real Downloader.fetchBodies/fetchParts goroutine against scripted peers; a schedule = the choices at the run's decision points in order of occurrence: per request received by the designated peer P1 one of {full, part (prefix), empty, wrong0 (first body wrong), wrongLast, dup (previous answer packet again, then the answer), unsol (batch nobody asked for, then the answer), timeout (never answered; expires), late (answered after the expiry was processed), disconnect (reconnects after the orphaned request expired)}, per import opportunity one of {take, stall}; configurations vary chain pattern, result window, MaxBlockFetch, master peer, eager/lazy importer, split header scheduling and a second peer with a fixed personality (honest | dead: never answers | liar: first body always wrong | empty: always empty answers | gone: disconnects on its first request); distinct = distinct (configuration, schedule, outcome); oracles: importer sequence origin.. exactly once with matching body; fetchBodies must return, nil only with every block delivered, an error only with a cause (master lost, no peer left, every peer lacking); a run that has not returned while nothing is in flight, nothing is left for the environment to do and 30 wake-ups change nothing is a dead state; peers are dropped only for a timed-out request of at most 2 items; every violation signature is confirmed by 3 replays of its shortest schedule with the dead state observed over 30 periods of the loop's own 100 ms ticker; configurations cyc2-*: TWO sync cycles on one Downloader - the first is cancelled as soon as the importer holds cutAt blocks (requests in flight, results possibly ready; or it runs to its end) exactly as spawnSync/Cancel/synchronise do (queue closed, cancel channel closed, fetchBodies awaited, wake and delivery channels emptied, queue.Reset, peers.Reset, new cancel channel, Prepare, fetchBodies spawned again), the second fetches from below / at / above the point the result window had reached, on the same chain or on a chain forking off below that point; unanswered requests of the first cycle are answered late in the second; the decision points of both cycles are explored, all oracles apply to each cycle relative to its own first block and chain"
+	deadlineB = r.Deadline
 	cfgs := configsB(r.Quick())
 	if v := os.Getenv("C18B_CONFIGS"); v != "" {
 		var sel []cfgB
@@ -339,6 +357,14 @@ func runFetch(r *mc.Run) {
 			if strings.Contains(k, "throttled") {
 				r.Count("fetch_loop_completed_after_throttling", int64(v))
 			}
+			for _, t := range []string{"second-cycle-starts-below-the-point-reached", "second-cycle-starts-at-the-point-reached", "second-cycle-starts-above-the-point-reached",
+				"second-cycle-after-completion", "cycle-cut-with-requests-in-flight", "cycle-cut-with-results-ready", "late-answer-of-first-cycle"} {
+				if strings.Contains(k, t) {
+					r.Count("fetch_loop_completed_"+strings.Replace(t, "-", "_", -1), int64(v))
+				}
+			}
+		case strings.HasPrefix(k, "first cycle"):
+			r.Count("fetch_loop_first_cycle_ended_without_a_second_one", int64(v))
 		case strings.HasPrefix(k, "aborted"):
 			r.Count("fetch_loop_aborted", int64(v))
 		case strings.HasPrefix(k, "stuck"):
